@@ -614,7 +614,7 @@ where
                     check_eq!(obs, a.is_exhausted(), exhausted, "envelope.adaptor-exhausted", "adaptor is_exhausted() after {} frames", fed);
                     if exhausted {
                         obs.fault(F_SOURCE_EOF);
-                        x = F::EQUILIBRIUM.unit();
+                        x = vec![0.0; chans];
                     }
                     slot.set(Some(frame));
                     let g = a.next();
